@@ -205,7 +205,7 @@ func (c c15Case) String() string {
 
 var c15RecvMutations = []string{"nothing", "garbage-control", "garbage-data", "unknown-type", "second-header", "dup-filebegin", "fileend-unknown", "chunk-unknown-file",
 	"chunk-len-0", "chunk-len-big", "chunk-index-big", "datastreams-0", "datastreams-65535", "filebegin-chunksize-0", "filebegin-huge-chunksize", "filebegin-size-mismatch",
-	"resume-unknown", "creditbatch-huge", "manifest-len-huge", "bad-crc", "truncated-record", "end-early", "chunk-for-empty-file"}
+	"resume-unknown", "creditbatch-huge", "manifest-len-huge", "bad-crc", "truncated-record", "end-early", "chunk-for-empty-file", "fileend-dup-then-more"}
 var c15SendMutations = []string{"nothing", "garbage-control", "unknown-type", "filedone-unknown", "filedone-dup", "resumeinfo-huge-bitmap", "resumeinfo-short-bitmap", "resumeinfo-wrong-total",
 	"resumeinfo-wrong-id", "creditbatch-huge", "filebegin-from-receiver", "truncated-record", "close-early"}
 
@@ -400,6 +400,16 @@ func c15RunReceiver(c c15Case, dir string) c15Result {
 		w := &vBufStream{}
 		writeControlEnd(w)
 		ctl.Write(w.W.Bytes())
+	case "fileend-dup-then-more":
+		// FileEnd once more for the first file (finished by then if the stage is late enough),
+		// then the script simply goes on with its remaining honest steps
+		w := &vBufStream{}
+		writeFileEnd(w, FileEnd{StreamID: key1})
+		ctl.Write(w.W.Bytes())
+		time.Sleep(2 * time.Millisecond)
+		for i := stage; i < len(steps); i++ {
+			steps[i]()
+		}
 	case "chunk-for-empty-file":
 		// f2.bin is empty: no honest sender ever sends a frame for it
 		key2 := fileKeyForItem(items[2])
